@@ -339,8 +339,9 @@ def rule_li(ctx):
     okk = False
     for d in idefs:
         if isinstance(d, ast.Call) and A.dotted(d.func) == 'range':
-            okr = len(d.args) == 1 and isinstance(d.args[0], ast.Call) and A.dotted(d.args[0].func) == 'len' and (
-                A.is_self_attr(d.args[0].args[0], INPUT_ATTR) or A.is_name(d.args[0].args[0], frozen or '\0'))
+            a0 = flow.copy_prop(d.args[0], it) if len(d.args) == 1 else None
+            okr = a0 is not None and isinstance(a0, ast.Call) and A.dotted(a0.func) == 'len' and (
+                A.is_self_attr(a0.args[0], INPUT_ATTR) or A.is_name(a0.args[0], frozen or '\0'))
         elif isinstance(d, ast.Call) and isinstance(d.func, ast.Attribute) and d.func.attr == 'keys' and not d.args:
             okk = True
     rep.ob('I', 'core.PrefetchDataset.__iter__::maps-over-range(len(input))-or-all-keys', okr and okk and len(idefs) == 2, it,
@@ -364,6 +365,12 @@ def rule_li(ctx):
                 okf = okf and isinstance(d, ast.Attribute) and d.attr == '__getitem__' and A.is_name(d.value, frozen or '\0')
         par = A.parent(c)
         delivered = isinstance(par, ast.YieldFrom) or isinstance(par, ast.For)
+        for pname, attr in (('max_workers', 'num_workers'), ('backend', 'backend'), ('buffer_size', 'buffer_size')):
+            e = b.args.get(pname)
+            okp = A.is_self_attr(e, attr)
+            rep.ob('I', 'core.PrefetchDataset.__iter__::configuration-reaches-the-helper-unchanged(%s)' % pname, okp, c,
+                   '' if okp else 'lazy_parallel_map gets %s=%s instead of self.%s: the configured %s is not the one used '
+                   '(e.g. 0 workers for an empty dataset, another backend)' % (pname, A.short(e) if e is not None else '<default>', attr, pname))
         rep.ob('I', 'core.PrefetchDataset.__iter__::maps-frozen-lookup-over-the-iterable', ok and okf and delivered, c,
                '' if ok and okf and delivered else 'lazy_parallel_map must map a lookup on the frozen copy over `iterable` '
                'and its results must be delivered in order')
@@ -378,6 +385,12 @@ def rule_li(ctx):
         okg = A.is_self_attr(gsrc, INPUT_ATTR) or (isinstance(gsrc, ast.Call) and isinstance(gsrc.func, ast.Attribute)
                                                    and gsrc.func.attr == '__iter__' and A.is_self_attr(gsrc.func.value, INPUT_ATTR))
         ret = isinstance(A.parent(c), ast.Return)
+        for pname, attr in (('max_workers', 'num_workers'), ('backend', 'backend'), ('buffer_size', 'buffer_size')):
+            e = b.args.get(pname)
+            okp = A.is_self_attr(e, attr)
+            rep.ob('I', 'core.ParMapDataset.__iter__::configuration-reaches-the-helper-unchanged(%s)' % pname, okp, c,
+                   '' if okp else 'lazy_parallel_map gets %s=%s instead of self.%s' % (
+                       pname, A.short(e) if e is not None else '<default>', attr))
         rep.ob('I', 'core.ParMapDataset.__iter__::maps-map_function-over-the-input', okf and okg and ret, c,
                '' if okf and okg and ret else 'parallel map must map self.map_function over the input iteration and return it')
     rep.floor('lazy_parallel_map call sites in ParMapDataset.__iter__', len(pcalls), 2)
